@@ -448,6 +448,51 @@ def runRowsL (dt : Rat) (rows : List (Nat × Nat × Rat)) :
   | [] => rows
   | (al, new) :: rest => runRowsL dt (rows.filterMap (ageRow dt al) ++ new) rest
 
+/-! ### Stated durations: from the duration PARAMETER of a class to the `dur` column of its new edges -/
+
+/-- What a class's duration parameter (`pars.dur` of RandomNet / ErdosRenyiNet, `pars.duration` of MFNet / MSMNet /
+    EmbeddingNet) says about the edges of one `add_pairs` call: a plain number in the NETWORK's time unit is repeated for
+    every new edge (`np.ones(len(p1)) * pars.dur`), a distribution is drawn once per new edge (`pars.dur.rvs(p1)`: the
+    i-th new edge gets the i-th draw).  Nothing else happens to the value between the parameter and the column. -/
+inductive DurPar where
+  | plain (d : Rat)
+  | drawn (draws : List Rat)
+
+/-- stated duration of the `i`-th new edge -/
+def DurPar.durAt : DurPar → Nat → Rat
+  | .plain d, _ => d
+  | .drawn ds, i => ds.getD i 0
+
+/-- the `dur` column of `n` new edges (`none`: a draw whose length is not the number of new edges) -/
+def DurPar.column : DurPar → Nat → Option (List Rat)
+  | .plain d, n => some (List.replicate n d)
+  | .drawn ds, n => if ds.length = n then some ds else none
+
+/-- the random choice of a step, its durations being those the duration parameter states -/
+def Choice.withDur (c : Choice) (s : DurPar) : Choice := { c with durAt := s.durAt }
+
+/-- `add_pairs` of a class whose duration parameter states `s`; a draw of the wrong shape is rejected -/
+def Net.addPairsStated (n : Net) (p : Pop) (c : Choice) (s : DurPar) : Except Err Net :=
+  match n.newPairs p c with
+  | .ok (some (a, _)) =>
+      match s.column a.length with
+      | some _ => n.addPairs p (c.withDur s)
+      | none => .error .badChoice
+  | _ => n.addPairs p (c.withDur s)
+
+/-- `network.step()` of a duration-carrying class with stated durations `s`: `end_pairs`, then `add_pairs` -/
+def Net.stepStated (n : Net) (p : Pop) (dt : Rat) (c : Choice) (s : DurPar) : Except Err Net :=
+  match n.kind with
+  | .random | .erdos | .randomPlain => { n with table := n.table.endPairs dt p.alive }.addPairsStated p c s
+  | .mf | .msm | .embedding =>
+      { n with table := n.table.endPairs dt p.alive, participant := c.participant, debut := c.debut }.addPairsStated p c s
+  | _ => .error .contract
+
+/-- `MaternalNet.add_pairs(mothers, unborn, dur, start=None)`: `start` defaults to the network's `ti` for every new edge -/
+def Table.matAddPairsAt (t : Table) (mothers unborn : List Nat) (durs : List Rat) (starts : Option (List Rat)) (ti : Rat) :
+    Except Err Table :=
+  t.matAddPairs mothers unborn durs (starts.getD (durs.map (fun _ => ti)))
+
 /-! ### Invariants as executable checks (used by the driver on OBSERVED tables) -/
 
 def Table.wfB (t : Table) : Bool := decide t.WF
